@@ -1,6 +1,7 @@
 """C16 - the client-id allow-list is enforced on every endpoint."""
 from rules import http as H
 from rules import shared as S
+from rules import wiring as WR
 LEVEL = "proof"
 TRUSTED = ["TB-rustc", "TB-actix (routing)"]
 EXPLANATION = ("the allow-list test dominates every storage access on every registered protocol route; the helper's decision table over "
@@ -10,3 +11,6 @@ EXPLANATION = ("the allow-list test dominates every storage access on every regi
 def run(rep, W, ctx):
     H.c16(rep, W)
     S.s_clientid(rep, W)
+    # "enforces exactly the given list" / "with no list every well-formed id is served": the list reaches WebServer::new
+    # unchanged and an absent option stays None
+    WR.c17(rep, W, sections={".LIST", ".ARGS"})
